@@ -2,6 +2,8 @@
 specification /verif/spec/ring_spec.py (written from the published algorithm):
   compat   ring contents and the owner of every one of the 65536 positions agree with the spec,
            FNV known-answer vectors, preference lists for sample keys
+  history  after the same sequence of leaves and rejoins the ring equals the published algorithm's, and
+           no position is held twice
   s1       adding / removing one node only inserts / deletes that node in every preference order
   s3       after add/remove sequences the ring equals a freshly built one (known finding: not when
            replica positions collide)"""
@@ -168,6 +170,30 @@ def main():
             if before != after:
               fail('c06-minimal-disruption', hash_type=ht, nodes=nodes, change=change, position=p, before=repr(before), after=repr(after))
               break
+        # the same history on the real ring and on the published algorithm: a destination leaves and
+        # rejoins (every node in turn), then a second one does -- ring contents, no position twice
+        for first in (nodes if n > 1 else []):
+          rh = ConsistentHashRing(nodes, hash_type=ht)
+          sh = S.build_ring(nodes, ht)
+          hist = []
+          for x in [first] + [y for y in nodes if y != first][:1]:
+            for op in ('remove', 'add'):
+              if op == 'remove':
+                rh.remove_node(x)
+                S.remove_node(sh, x)
+              else:
+                rh.add_node(x)
+                S.add_node(sh, x, ht)
+              hist.append([op, x])
+              evals += 1
+              pos = [e[0] for e in rh.ring]
+              if pos != sorted(set(pos)):
+                fail('c06-ring-positions-unique', hash_type=ht, start=nodes, ops=list(hist),
+                     duplicate_positions=sorted(set(q for q in pos if pos.count(q) > 1))[:5])
+              if rh.ring != sh:
+                fail('c06-compat-history', hash_type=ht, start=nodes, ops=list(hist),
+                     first_difference=repr(next(((u, v) for u, v in zip(rh.ring, sh) if u != v), ('lengths', len(rh.ring), len(sh)))),
+                     what='after the same joins and leaves the ring differs from the published algorithm')
         # s3: history independence
         ops_n = 2 if a.tier == 'quick' else 5
         live = list(nodes)
